@@ -20,8 +20,10 @@ theorem regexes_ok :
       ["(?:^func\\s)(?P<fail>(failing_)?)(?P<name>test[[:alnum:]]+)(?:\\(.*)",
        "(?:^func\\s)(?P<fail>(failing_)?)(?:test)(?P<name>[[:alnum:]]+)(?:\\(.*)"] := rfl
 
-/-- T-gen obligation: both modes skip the same files (backup, gold, _test.go). -/
-theorem filters_ok : Gen.TestGen.suffixFilters = ["~", ".gold.v", "_test.go", "~", ".gold.v", "_test.go"] := rfl
+/-- T-gen obligation: both modes skip the same files (backup, gold, _test.go; names not ending in .go or starting with _ or .). -/
+theorem filters_ok :
+    Gen.TestGen.suffixFilters = ["~", ".gold.v", "_test.go", ".go", "~", ".gold.v", "_test.go", ".go"] ∧
+    Gen.TestGen.prefixFilters = ["_", ".", "_", "."] := ⟨rfl, rfl⟩
 
 /-- T-gen obligation: main() and the emitted headers/footers are what the model was written from. -/
 theorem facts_ok : Gen.TestGen.mainBody = Expected.TestGen.mainBody ∧ Gen.TestGen.constants = Expected.TestGen.constants :=
